@@ -23,6 +23,8 @@ var (
 func Register(typ reflect.Type, f CodecBuildFunc) {
 	registryMutex.Lock()
 	defer registryMutex.Unlock()
+	verifPoint("registry.w.enter")
+	defer verifPoint("registry.w.leave")
 	registry[typ] = f
 }
 
@@ -36,7 +38,9 @@ func buildCodec(schema Schema, typ reflect.Type, omit bool) (Codec, error) {
 		}
 
 		registryMutex.RLock()
+		verifPoint("registry.r.enter")
 		cf, ok := registry[typ]
+		verifPoint("registry.r.leave")
 		registryMutex.RUnlock()
 		if ok {
 			return cf(schema, typ, omit)
